@@ -193,6 +193,13 @@ where
     if got != f.iter().map(|s| Some(*s)).collect::<Vec<_>>() || ch.next().is_some() || ch.next().is_some() {
         return bad("frame.channels", format!("{tag}: channels() yielded {got:?}"));
     }
+    // the whole Iterator protocol (nth, skip, step_by, size_hint, count, last) agrees with next()
+    if let Some(m) = common::iterproto::check(&|| f.channels(), &f.to_vec(), false) {
+        return bad("frame.channels", format!("{tag}: channels(): {m}"));
+    }
+    if let Some(m) = common::iterproto::check(&|| f.channels_ref().copied(), &f.to_vec(), false) {
+        return bad("frame.channels_ref", format!("{tag}: channels_ref(): {m}"));
+    }
     // channels_ref forwards and backwards
     let fw: Vec<S> = f.channels_ref().copied().collect();
     let bw: Vec<S> = f.channels_ref().rev().copied().collect();
@@ -272,7 +279,7 @@ fn main() {
         };
         ctx.finish_replay(r.map(|(k, m)| format!("{k}: {m}")));
     }
-    ctx.rule("frames: every (sample format of 14, N in 1..=32) x 9 contents (position-coded + 8 rotations of the boundary-value vector MIN/MAX/EQ/...): map, zip_map (closure call order recorded), offset_amp, scale_amp(4 gains), add_amp and mul_amp with argument frames that are per-channel different / uniform (all 0, all 1, all 1/2) / a single non-zero or single zero channel, to_signed_frame, to_float_frame, EQUILIBRIUM, CHANNELS, from_fn (index order), from_samples over iterators of every length 0..=N+1 and four kinds of size hint, plus frame.channels() (Some iff len>=N; on success exactly the first N samples are taken), channels() (exact size), channels_ref/channels_mut forwards and backwards, channel(i)/channel_mut(i) for i in 0..=N+1, channel_unchecked; oracle = the array built by applying the sample operation to channel 0..N-1 in order; distinct by (format, N, content)");
+    ctx.rule("frames: every (sample format of 14, N in 1..=32) x 9 contents (position-coded + 8 rotations of the boundary-value vector MIN/MAX/EQ/...): map, zip_map (closure call order recorded), offset_amp, scale_amp(4 gains), add_amp and mul_amp with argument frames that are per-channel different / uniform (all 0, all 1, all 1/2) / a single non-zero or single zero channel, to_signed_frame, to_float_frame, EQUILIBRIUM, CHANNELS, from_fn (index order), from_samples over iterators of every length 0..=N+1 and four kinds of size hint, plus frame.channels() (Some iff len>=N; on success exactly the first N samples are taken), channels() and channels_ref() under the whole Iterator protocol (size_hint bounds, nth / skip / step_by / count / last after every cursor position, against next()), channels_ref/channels_mut forwards and backwards, channel(i)/channel_mut(i) for i in 0..=N+1, channel_unchecked; oracle = the array built by applying the sample operation to channel 0..N-1 in order; distinct by (format, N, content)");
     let mut evals = 0u64;
     for (fmt, n, f) in &table {
         for variant in 0..9usize {
